@@ -41,8 +41,9 @@ impl AggregateColumn {
 }
 struct GroupBy { id: u64 }
 impl GroupBy {
+    uninterp spec fn has(&self, c: Column) -> bool;
     #[verifier::external_body]
-    fn contains(&self, c: &Column) -> bool { unimplemented!() }
+    fn contains(&self, c: &Column) -> (r: bool) ensures r == self.has(*c) { unimplemented!() }
 }
 struct Reduce { aggregate: Vec<AggregateColumn>, group_by: GroupBy }
 impl Reduce {
